@@ -6,6 +6,12 @@ Future,wait,as_completed} and time.{time,sleep,monotonic} turn every synchronisa
 point at which the *schedule* (generated data) picks the next thread. Blocking is modelled: a thread blocked on a
 lock/condition/queue/future is not runnable; if nothing is runnable and no timed wait is pending the run is a
 deadlock (reported with the blocked threads' stacks inside the code under test); timed waits fire on a virtual clock.
+
+Line-level preemption (optional): a schedule with 'line_preempt': [[n, choice], ...] (or 'count_lines': True) installs a
+sys.settrace hook in every virtual thread; each executed source line of a file under LINE_ROOT (the library under test)
+is counted, and when the global count reaches n the running thread is preempted in favour of another runnable thread even
+though it is between two plain statements. This reaches races on state that is not protected by any lock at all, which
+the synchronisation-point schedules above cannot.
 """
 from __future__ import annotations
 
@@ -86,6 +92,11 @@ class Sched:
     self.done_evt = _t.Event()
     self.aborting = False
     self.idle_at_end = []
+    spec = self.schedule.spec
+    self.line_targets = {int(n): int(c) for n, c in spec.get('line_preempt', [])}
+    self.trace_lines = bool(self.line_targets or spec.get('count_lines')) and LINE_ROOT is not None
+    self.lines = 0
+    self.line_preemptions = 0
 
   # -- thread management
   def spawn(self, fn, args=(), name=None):
@@ -178,6 +189,28 @@ class Sched:
     if me.kill:
       raise _Killed()
 
+  def line_point(self):
+    """Called from the trace hook for every source line of the library executed by the baton holder."""
+    me = self.cur
+    if me is None or me.kill or self.aborting or me.finished or me.os is not _t.current_thread():
+      return
+    self.lines += 1
+    c = self.line_targets.get(self.lines)
+    if c is None:
+      return
+    others = [vt for vt in self.runnable() if vt is not me]
+    if not others:
+      return
+    nxt = others[c % len(others)]
+    self.steps += 1
+    self.preemptions += 1
+    self.line_preemptions += 1
+    self.context_switches += 1
+    if len(self.trace) < 4000:
+      self.trace.append(nxt.name)
+    me.where = 'line'
+    self._switch_from(me, nxt)
+
   def yield_(self, where=''):
     me = self.cur
     if me is None or me.kill or self.aborting:
@@ -256,6 +289,8 @@ class VT:
   def _main(self):
     self.sem.acquire()
     try:
+      if self.s.trace_lines:
+        sys.settrace(_global_trace)
       if not self.kill:
         self.result = self.fn(*self.args)
     except _Killed:
@@ -263,6 +298,8 @@ class VT:
     except BaseException as e:  # pylint: disable=broad-exception-caught
       self.exc = e
     finally:
+      if self.s.trace_lines:
+        sys.settrace(None)
       if self.kill:
         self.finished = True
       else:
@@ -273,6 +310,28 @@ class VT:
 
 
 SCHED = None
+LINE_ROOT = None  # path prefix of the source files whose lines are preemption points (set_line_root)
+
+
+def set_line_root(path):
+  global LINE_ROOT
+  LINE_ROOT = path
+
+
+def _global_trace(frame, event, arg):
+  del event, arg
+  if LINE_ROOT is not None and frame.f_code.co_filename.startswith(LINE_ROOT):
+    return _local_trace
+  return None
+
+
+def _local_trace(frame, event, arg):
+  del frame, arg
+  if event == 'line':
+    s = SCHED
+    if s is not None:
+      s.line_point()
+  return _local_trace
 
 
 def S():
